@@ -85,11 +85,12 @@ Removed(b, a) == Paths(b) \ Paths(a)
 Exists(t, p) == p \in Paths(t)
 
 \* ------------------------------------------------------------------ C19: the frame rule
-\* s: [action, kind, proj: <<seg>> (directory of the spokfile), cwd: <<seg>>]
+\* s: [action, kind, proj: <<seg>> (directory of the spokfile), cwd: <<seg>>, spokreal: <<seg>> (proj \o <<"spokfile">>, or the file it links to)]
 CacheDir(s) == s.proj \o <<".spok">>
 MayWrite(s, before, p) ==
   \/ IsPfx(CacheDir(s), p)                                                       \* the cache directory next to the spokfile
   \/ s.action = "fmt" /\ p = s.proj \o <<"spokfile">>                             \* (the action is "fmt" only when the spokfile parses and loads)
+  \/ s.action = "fmt" /\ p = s.spokreal                                          \* the regular file a symbolic link named spokfile leads to IS the spokfile
   \/ s.action = "init" /\ p = s.cwd \o <<"spokfile">> /\ ~Exists(before, p)      \* never overwrites an existing spokfile
   \/ s.action = "init" /\ p = s.cwd \o <<".gitignore">> /\ ~Exists(before, s.cwd \o <<"spokfile">>)
 Conforms_C19(r) ==
